@@ -239,6 +239,19 @@ def run(chk):
         rev = [c for c in b.calls(normal_only=True) if c.callee.get("name") in ("rev", "rposition", "rfold")]
         if rev:
             return False, "parts are visited in reverse", [], rev[0].loc
+        # the writer sees the template only through Part::write (which picks write_text / write_hole_* per part): no path
+        # returns without entering the loop over the parts, and nothing else is called on the writer
+        nx = [c for c in b.calls(normal_only=True) if c.callee.get("name") == "next" and b.in_cycle(c.bb)]
+        if not nx or not b.must_pass([nx[0].bb]):
+            return False, ("Render::write can return without visiting the parts: a shortcut that writes the text itself bypasses "
+                           "the writer's write_text / write_hole_* hooks"), [], b.span
+        for c in b.calls(normal_only=True):
+            if c is pw[0] or c.bb == pw[0].bb:
+                continue
+            for a in c.args:
+                if mir.o_is_param(mir.o_root(b.origin(a)), idx=2):
+                    return False, ("Render::write hands the writer to %s at %s: every fragment must reach the writer through "
+                                   "Part::write so the writer's own write_text / write_hole_* decide how it is rendered" % (c.callee.get("name"), c.loc)), [], c.loc
         return True, "", [pw[0].loc]
     chk.ob("C16.R2:Render::write", "parts are written in order, errors propagate", render_write)
 
@@ -330,6 +343,29 @@ def run(chk):
     if True:
         from . import corpus
         corpus.template_rules(chk, "C16")
+    def macro_text_unchanged():
+        """fv_template hands visit_text the fragment with `{{`/`}}` already unescaped: the visitor appends exactly that text to the
+        literal (span names, format strings) and interpolates exactly that text into Part::text(..)"""
+        bs = [b for k, b in P.bodies.items() if "TemplateVisitor" in k and k.endswith("LiteralVisitor>::visit_text")]
+        if not bs:
+            raise mir.AnchorMissing("impl LiteralVisitor for TemplateVisitor::visit_text")
+        b = bs[0]
+        ps = [c for c in b.calls(normal_only=True) if c.callee.get("name") == "push_str"]
+        tt = [c for c in b.calls(normal_only=True) if c.callee.get("name") == "to_tokens"]
+        if len(ps) != 1 or len(tt) != 1:
+            return False, "visit_text appends %d strings to the literal and interpolates %d values (expected one each)" % (len(ps), len(tt)), [], b.span
+        for c, i, what in ((ps[0], 1, "appended to the template literal"), (tt[0], 0, "interpolated into Part::text(..)")):
+            o = b.origin(c.args[i])
+            r = o
+            while r[0] in ("ref", "deref", "copy"):
+                r = r[1]
+            if not mir.o_is_param(r, idx=2):
+                return False, ("the text %s is %s, not the fragment fv_template passed in: escapes are already resolved by the parser, "
+                               "so any further rewriting changes the rendered text" % (what, mir.o_str(o))), [], c.loc
+        return True, "", [ps[0].loc, tt[0].loc]
+    chk.ob("C16.R3:macro-text-unchanged", "the template macro copies each text fragment unchanged into the literal and into the generated "
+           "text part", macro_text_unchanged)
+
     def text_verbatim():
         """Every write_text in the workspace (the trait default and any override) writes the fragment with write_str - or forwards
         to an inner write_text - never through a formatting call that applies the outer width/precision/alignment per fragment."""
